@@ -900,3 +900,17 @@ package eval
 //@   before call 16:
 //@     assert [C17,C03,C01] pods: srcPodPeer.Pod == unwrap(srcPeer, *k8s.WorkloadPeer).Pod
 //@         && (dstPodPeer.Pod == unwrap(dstPeer, *k8s.WorkloadPeer).Pod || (dstPodPeer.Pod.Namespace == unwrap(dstPeer, *k8s.WorkloadPeer).Pod.Namespace && dstPodPeer.Pod.Owner.Name == unwrap(dstPeer, *k8s.WorkloadPeer).Pod.Owner.Name))
+
+// ---------------------------------------------------------------------------------------------
+// Building the engine from parsed objects (C19, C02, C01): every object of the list is inserted (the loop runs to the end
+// unless an insertion fails), the admin policies are then sorted by priority - a conflict reported by the sort is returned -
+// and only then the namespaces of the pods are completed
+// ---------------------------------------------------------------------------------------------
+//@ func (*PolicyEngine).addObjectsByKind
+//@   nosafety
+//@   requires pe != nil
+//@   modifies *
+//@   before call 14:
+//@     assert [C19,C02] all: rangeindex1 + 1 >= len(objects) && !pe.exposureAnalysisFlag
+//@   before call 15:
+//@     assert [C19,C02] sorted: sortedANPs(pe)
